@@ -14,7 +14,7 @@ PROP = "C08"
 RULE = ("per dataset (PSM table whose peptides come from a generated FASTA with subset / shared-peptide structures and "
         "decoys): the full analysis read_pin -> read_fasta -> brew (real PercolatorModel, fixed seed) -> assign_confidence "
         "with proteins is run in fresh interpreters under PYTHONHASHSEED in {0, 1, 2, random} x max_workers in {1, 4}, "
-        "half of the datasets carry a string-valued filename column in the spectrum key; twice in each process, and the returned models are fed back in every permutation (k! for k<=4 folds). Compared "
+        "half of the datasets carry a string-valued filename column in the spectrum key; twice in each process, and the returned models are fed back in every permutation (k! for k<=4 folds; reversed, rotated and two random orders for 10 folds). Compared "
         "bit for bit (float.hex / sha256): fold numbers, model coefficients, scores, descs, every result file (PSM, "
         "peptide, protein level), read_fasta maps. distinct = (dataset, hash seed, workers); non-trivial = all of them")
 ASSUMPTIONS = [
@@ -57,7 +57,7 @@ def gen(ctx):
                     **{kk: v for kk, v in cols.items() if kk not in ("SpecId", "Label", "ScanNr")}}
         files = [{"columns": list(cols.keys()), "data": cols}]
         base = {"fn": "history", "files": files, "fasta": fasta, "fasta_args": dict(c15.FASTA_ARGS), "seed": rng.randint(1, 10 ** 6),
-                "folds": rng.choice([2, 3, 3, 4]), "train_fdr": 0.3, "test_fdr": 0.3}
+                "folds": rng.choice([2, 3, 3, 4]) if k % 3 else 10, "train_fdr": 0.3, "test_fdr": 0.3}
         for hs in ["0", "1", "2", str(rng.randint(3, 4000000))]:
             for w in (1, 4):
                 c = dict(base)
